@@ -31,7 +31,7 @@ no parentheses around the attribute of a dot, so `<a>.(<b>.<c>)` is read back as
 Numbers are `NUMBER` tokens read with `int(…)`: naturals (a negative index is Python's unary minus and
 never reaches `rs_slice`).
 
-Tokens: one per lexical unit.  Import-free except for nothing: linked into `drv_print`.
+Tokens: one per lexical unit.  Import-free: linked into `drv_print`.
 -/
 namespace FV.PS
 
